@@ -17,6 +17,7 @@ def _exact(ctx, DX, DY):
         ctx.skip("exact oracle exceeded its node budget")
 from . import _graph as G
 
+FUZZ = ["formats"]
 RULE = ("Connected graphs of 1..7 vertices in every container / sparsity format (nested list, dense array, csr/csc/coo/lil matrix, csr_array) x "
         "{upper-triangular, symmetric} and under relabelling; collections of 2..4 graphs in mixed formats; graphs with 2..3 components (sizes "
         "generated, ties and isolated vertices included) against a connected partner; np.random.seed(s) with generated s before every call.")
